@@ -58,6 +58,12 @@ func (r *Rig) StartTLSOrigin() error {
 // SessionMITM sends the CONNECT, and when the proxy answers 2xx performs a TLS handshake with the proxy
 // (which impersonates the target) and sends the inner requests one after the other on that TLS connection.
 func (r *Rig) SessionMITM(p *Proxy, connect RawReq, inner []RawReq) (Obs, []Obs) {
+	return r.SessionMITMWith(p, connect, inner, nil)
+}
+
+// SessionMITMWith is SessionMITM with a hook that runs after the TLS session inside the tunnel is established and
+// before the first request is sent through it (e.g. to move an injected clock).
+func (r *Rig) SessionMITMWith(p *Proxy, connect RawReq, inner []RawReq, established func()) (Obs, []Obs) {
 	var co Obs
 	c, err := net.DialTimeout("tcp", p.Addr, 3*time.Second)
 	if err != nil {
@@ -94,6 +100,9 @@ func (r *Rig) SessionMITM(p *Proxy, connect RawReq, inner []RawReq) (Obs, []Obs)
 		return co, nil
 	}
 	tbr := bufio.NewReader(tc)
+	if established != nil {
+		established()
+	}
 	var out []Obs
 	for _, q := range inner {
 		var o Obs
